@@ -86,6 +86,9 @@ func bubble(t *testing.T, f func(t *testing.T)) {
 	synctest.Test(t, f)
 }
 
+// wrapBody, when set, wraps the body reader of the next request (a stalled upload).
+var wrapBody func(io.Reader) io.Reader
+
 // lastBubbleLeak is non-empty when the last bubble ended with goroutines left behind.
 var lastBubbleLeak string
 
@@ -235,7 +238,11 @@ func (w *world) request(method, target string, hdr http.Header, body []byte, dec
 	var rd io.Reader
 	h := &hreq{rec: httptest.NewRecorder(), cancel: cancel, done: make(chan struct{})}
 	if body != nil {
-		h.body = &countingBody{r: bytes.NewReader(body)}
+		var src io.Reader = bytes.NewReader(body)
+		if wrapBody != nil {
+			src = wrapBody(src)
+		}
+		h.body = &countingBody{r: src}
 		rd = h.body
 	}
 	req := httptest.NewRequest(method, target, rd).WithContext(ctx)
